@@ -35,6 +35,8 @@ type HConfig struct {
 	WallClock bool `json:"wall_clock,omitempty"`
 	// SubMicro: message times carry nanoseconds below the microsecond and a non-UTC location (same microsecond time)
 	SubMicro bool `json:"sub_micro,omitempty"`
+	// LongKeys: a 300-byte and a 70000-byte key are published now and then and looked up in every key sweep
+	LongKeys bool `json:"long_keys,omitempty"`
 }
 
 type OpenOpts struct {
